@@ -38,6 +38,13 @@ def cmdC10 (j : Json) : R Json := do
     ("trace", Json.arr (states.map fun r => Json.arr #[putFB r.value, putFB r.error]).toArray),
     ("down", Json.arr (states.map fun r =>
         let d := downstream k c r
+        Json.arr #[putFB d.1, putFB d.2]).toArray),
+    -- the later calculation written in terms of intermediate results made before the selector steps
+    ("downvia", Json.arr (states.map fun r =>
+        let d := Stats.downstreamVia k c r.value r.error
+        Json.arr #[putFB d.1, putFB d.2]).toArray),
+    ("downsq", Json.arr (states.map fun r =>
+        let d := Stats.downstreamSq k r.value r.error
         Json.arr #[putFB d.1, putFB d.2]).toArray)]
   let extra ← match (← optFBList j "ys") with
     | none => pure []
